@@ -196,9 +196,13 @@ func rootCause(op *opDef, c Case, i int, fam string) string {
 			// strides.
 			return "dense-copy-overlap-different-stride"
 		}
-	case "CopyVec", "CopySym", "TriCopy":
+	case "CopyVec", "CopySym":
 		if !a.Same && fam == famResultWrong {
 			return "copy-forward-only"
+		}
+	case "TriCopy":
+		if !a.Same && fam == famResultWrong {
+			return "tridense-copy-forward-only"
 		}
 	}
 	if op.Name == "MulVec" && !a.Same && i == 0 && (kind == "U" || kind == "L") && fam == famMutatedBefore {
